@@ -1,9 +1,28 @@
-import QM.Props.C12
+import QM.Install
+import QM.InstallModel
 import QM.Props.C17
 /-! C12: from the component stack of `cleaned` to the *string* the link is created at — an alias that passes the
     acceptance test is, as a path string, a sequence of plain names separated by single slashes. -/
 namespace Inst
 open Pth
+
+theorem splitSlash_noSlash (a : Str) (h : '/' ∉ a) : splitSlash a = [a] := by
+  induction a with
+  | nil => rfl
+  | cons c r ih =>
+    have hc : (c == '/') = false := by
+      simp only [List.mem_cons, not_or] at h; simpa using fun e => h.1 e.symm
+    have hr : '/' ∉ r := fun hm => h (List.mem_cons_of_mem _ hm)
+    simp [splitSlash, hc, ih hr]
+
+theorem splitSlash_append (a b : Str) (h : '/' ∉ a) : splitSlash (a ++ '/' :: b) = a :: splitSlash b := by
+  induction a with
+  | nil => simp [splitSlash]
+  | cons c r ih =>
+    have hc : (c == '/') = false := by
+      simp only [List.mem_cons, not_or] at h; simpa using fun e => h.1 e.symm
+    have hr : '/' ∉ r := fun hm => h (List.mem_cons_of_mem _ hm)
+    simp [splitSlash, hc, ih hr]
 
 theorem splitSlash_parts_noSlash (p : Str) : ∀ x ∈ splitSlash p, '/' ∉ x := by
   induction p with
@@ -116,5 +135,77 @@ theorem render_parent_head (st : List Comp) : (components (render (Comp.parent :
     have ha : isAbs (dotdot ++ '/' :: render (c :: cs)) = false := by simp [isAbs, dotdot]
     simp only [hs, ha, Bool.false_eq_true, if_false, List.zipIdx_cons, List.filterMap_cons]
     simp [dotdot, dot]
+
+
+theorem fold_relShape (cs st : List Comp) (hcs : ∀ c ∈ cs, c ≠ Comp.root) (h : relShape st) : relShape (cs.foldl cleanStep st) := by
+  induction cs generalizing st with
+  | nil => exact h
+  | cons c cs ih => exact ih _ (fun d hd => hcs d (by simp [hd])) (cleanStep_relShape st c (hcs c (by simp)) h)
+
+theorem normals_eq_map (st : List Comp) (h : ∀ c ∈ st, isNormalC c = true) :
+    ∃ xs : List Str, st = xs.map Comp.normal := by
+  induction st with
+  | nil => exact ⟨[], rfl⟩
+  | cons c cs ih =>
+    obtain ⟨xs, hxs⟩ := ih (fun d hd => h d (by simp [hd]))
+    have hc := h c (by simp)
+    cases c with
+    | normal x => exact ⟨x :: xs, by simp [hxs]⟩
+    | root => simp [isNormalC] at hc
+    | cur => simp [isNormalC] at hc
+    | parent => simp [isNormalC] at hc
+
+/-- C12, the bridge to the string: an alias that passes the acceptance test of `enable_service_file` (tested on the
+    *cleaned* string) is relative and every part of it — as the kernel will resolve the path — is a plain name:
+    no "..", no ".", no empty part.  The link is therefore created strictly below the output directory. -/
+theorem alias_string (svcFile raw : Str) (h : aliasOK svcFile (cleaned raw) = true) :
+    isAbs (cleaned raw) = false ∧ ∀ part ∈ splitSlash (cleaned raw), isNormal part = true := by
+  unfold aliasOK at h
+  simp only [Bool.and_eq_true, Bool.not_eq_true', bne_iff_ne, ne_eq] at h
+  obtain ⟨⟨⟨hne, hrel⟩, hhead⟩, _⟩ := h
+  refine ⟨hrel, ?_⟩
+  -- the raw alias is relative too
+  have hraw : isAbs raw = false := by
+    cases hr : isAbs raw with
+    | false => rfl
+    | true =>
+      have := (C17_clean_normal raw hr).choose_spec.2.2
+      rw [this] at hrel; cases hrel
+  have hnoroot : ∀ c ∈ components raw, c ≠ Comp.root := fun c hc e => components_no_root raw hraw (e ▸ hc)
+  have hshape := fold_relShape (components raw) [] hnoroot ⟨0, [], by simp, by simp⟩
+  -- the cleaned stack does not begin with ".."
+  have hst : ((components raw).foldl cleanStep []).head? ≠ some Comp.parent := by
+    intro hp
+    apply hhead
+    unfold cleaned
+    cases hs : (components raw).foldl cleanStep [] with
+    | nil => rw [hs] at hp; simp at hp
+    | cons c cs =>
+      rw [hs] at hp
+      simp only [List.head?_cons, Option.some.injEq] at hp
+      subst hp
+      exact render_parent_head cs
+  have hall := alias_inside (components raw) hnoroot hst
+  obtain ⟨xs, hxs⟩ := normals_eq_map _ hall
+  have hgood : ∀ x ∈ xs, isNormal x = true ∧ '/' ∉ x := by
+    intro x hx
+    have hm : Comp.normal x ∈ (components raw).foldl cleanStep [] := by rw [hxs]; exact List.mem_map_of_mem hx
+    rcases mem_fold_cleanStep _ _ _ hm with h | h
+    · simp at h
+    · exact components_normal raw x h
+  intro part hpart
+  unfold cleaned at hpart hne
+  rw [hxs] at hpart hne
+  cases xs with
+  | nil => simp [render] at hne
+  | cons x xs =>
+    rw [render_normals, splitSlash_names x xs (hgood x (by simp)).2 (fun y hy => (hgood y (by simp [hy])).2)] at hpart
+    exact (hgood part hpart).1
+
+/-- the premises are satisfiable and the filter is not vacuous -/
+example : aliasOK (s "a.service") (cleaned (s "sub/../x/./y.service")) = true
+    ∧ cleaned (s "sub/../x/./y.service") = s "x/y.service"
+    ∧ aliasOK (s "a.service") (cleaned (s "sub/../../x.service")) = false
+    ∧ aliasOK (s "a.service") (cleaned (s "/abs.service")) = false := by decide
 
 end Inst
